@@ -124,7 +124,14 @@ class C11(WigBedProp):
         nconv = 0
         for k in range(6 if tier == "thorough" else 2):
             r = rng.fork(k)
-            names, sizes, data, _ = bbgen.gen_wig_input(r, nchrom=5, value_mode="int", maxn=60)
+            # values: small integers / arbitrary finite f32 patterns, and a few non-finite ones (legal in a bigWig; the
+            # statement asks for the same text whatever the values are)
+            names, sizes, data, _ = bbgen.gen_wig_input(r, nchrom=5, value_mode="int" if k % 2 == 0 else "bits", maxn=60)
+            special = {}
+            for n in names:
+                for i in range(len(data[n])):
+                    if r.chance(1, 9):
+                        special[(n, i)] = r.choice(["nan", "inf", "-inf", "-0.0", "1e-42"])
             sz = os.path.join(d, f"s{k}.sizes")
             with open(sz, "w") as f:
                 for n in sizes:
@@ -132,8 +139,8 @@ class C11(WigBedProp):
             bg = os.path.join(d, f"i{k}.bedGraph")
             with open(bg, "w") as f:
                 for n in names:
-                    for (s, e, b) in data[n]:
-                        f.write(f"{n}\t{s}\t{e}\t{bbgen.bits_f32(b)}\n")
+                    for i, (s, e, b) in enumerate(data[n]):
+                        f.write(f"{n}\t{s}\t{e}\t{special.get((n, i), bbgen.bits_f32(b))}\n")
             bw = os.path.join(d, f"i{k}.bw")
             subprocess.run([repo_bin("bedgraphtobigwig"), bg, sz, bw], capture_output=True)
             bnames, bsizes, bdata, _ = bbgen.gen_bed_input(r, nchrom=5, maxn=40)
